@@ -15,4 +15,5 @@ var Checks = map[string]func(*core.Env){
 	"C11": C11,
 	"C17": C17,
 	"C13": C13,
+	"C14": C14,
 }
